@@ -34,6 +34,8 @@ LEVEL = "exploration"
 TECHNIQUE = ("deterministic simulation: seeded clock advance/jump patterns, call latencies, failures, stop/reset points "
              "on a real LoopingCall vs an exact-arithmetic boundary-grid model")
 QUICK_RUNS = 120000
+TWIN_P = 0.08   # this share of the runs drives two independent instances of the scenario one after the other (detsim.runner._run_scenario)
+USES_DEPTH = True   # thorough tier: history length bound scales with sim.depth (1..3) beyond the quick tier\'s run indices
 BATCH = 300
 RUN_WALL_LIMIT_S = 60   # the machine is shared; a run itself takes about a millisecond
 COMPONENTS = {"real": ["twisted.internet.task.LoopingCall (start/stop/reset/__call__/_scheduleFrom/withCount)",
@@ -157,7 +159,7 @@ def run(sim):
     now_flag = sim.draw_bool(0.5, "now")
     counted = sim.draw_bool(0.5, "withCount")
     offset = sim.draw_int(0, 40, "offset") / 8.0
-    nops = sim.draw_int(5, 40, "nops")
+    nops = sim.draw_int(5, 40 * sim.depth, "nops")
     sim.config = {"family": family, "interval": interval, "now": now_flag, "withCount": counted, "offset": offset, "nops": nops}
 
     if family == "task-clock":
@@ -330,7 +332,7 @@ def run(sim):
     after(False)
 
     for _ in range(nops):
-        sim.step(400)
+        sim.step(400 * sim.depth)
         can_fire = st["manual"] is not None
         idle = (not m.running) and (not m.outstanding)
         ops = [("clock", 14), ("fire", 5 if can_fire else 0), ("stop", 2 if m.running else 0), ("reset", 2 if m.running else 0),
